@@ -152,3 +152,36 @@ Lemma cursor_boundary_proof t root c :
   cinv t root (cursor_seek_last c) /\ anchor_of (cursor_seek_last c) = AR /\
   cinv t root new_cursor /\ anchor_of new_cursor = AL.
 Proof. apply cursor_boundary_spec. Qed.
+
+(* ---------------------------------------------------------------- the repaired defect, for the record *)
+
+(* BTree._delete as it was before /repo c9e1ffb: the root is collapsed only when something was
+   deleted *)
+Definition delete_tree_before_fix (t : nat) (root : tree) (key : Z) (exact : option Z) : res (tree * dout) :=
+  do (root1, o) <- del t (depth root) true root key exact;
+  match o with
+  | DDel _ => do root2 <- collapse_root root1; Ok (root2, o)
+  | _ => Ok (root1, o)
+  end.
+
+Definition lf2 (a b : Z) : tree := Node true [(a, a); (b, b)] [].
+Definition all_minimal_17 : tree :=
+  Node false [(80, 80)]
+    [Node false [(20, 20); (50, 50)] [lf2 0 10; lf2 30 40; lf2 60 70];
+     Node false [(110, 110); (140, 140)] [lf2 90 100; lf2 120 130; lf2 150 160]].
+
+(* three deletes of absent keys leave an internal root without keys whose only child is minimal;
+   the next delete - of a key that IS in the tree - ends in IndexError *)
+Lemma delete_before_fix_refuted_proof :
+  wf 3 all_minimal_17 /\
+  exists r1 r2 r3,
+    delete_tree_before_fix 3 all_minimal_17 1 None = Ok (r1, DNone) /\
+    delete_tree_before_fix 3 r1 91 None = Ok (r2, DNone) /\
+    delete_tree_before_fix 3 r2 151 None = Ok (r3, DNone) /\
+    find_sorted 0 (elements r3) = Some (0, 0) /\
+    delete_tree_before_fix 3 r3 0 None = Internal eIndex.
+Proof.
+  split; [apply wf_b_iff; vm_compute; reflexivity|].
+  eexists _, _, _. split; [vm_compute; reflexivity|]. split; [vm_compute; reflexivity|].
+  split; [vm_compute; reflexivity|]. split; vm_compute; reflexivity.
+Qed.
